@@ -9,7 +9,7 @@ export CARGO_TARGET_DIR=/tmp/cf-target
 [ -f "$out/patch.diff" ] || { echo "no patch.diff in $out"; exit 2; }
 git -C /repo worktree remove --force "$wt" >/dev/null 2>&1; rm -rf "$wt"
 git -C /repo worktree add --detach "$wt" HEAD >/dev/null 2>&1 || { echo "worktree failed"; exit 2; }
-demo_cmd="$(grep -m1 -E '^\s*cargo ' "$out/demo_cmd.txt" | sed 's/^\s*//')"
+demo_cmd="$(grep -m1 -E '(^|\s)cargo (\+[a-z]+ )?test' "$out/demo_cmd.txt" | sed -E 's/^.*(cargo (\+[a-z]+ )?test)/\1/')"
 demo_path="$(grep -oE 'rs/[A-Za-z0-9_/.-]+\.rs' "$out/demo_cmd.txt" | head -1)"
 demo_file="$(ls "$out"/*.rs | head -1)"
 first_crate="$(python3 -c "import json;print(json.load(open('$out/meta.json'))['touched_crates'][0])")"
